@@ -341,7 +341,7 @@ def poison_run(ctx, poison_kind, payload, k):
             ch.basic_publish("", EVENTQ + "-i1", json.dumps(payload), props("poison-iev"))
         elif poison_kind == "reply":
             ch.basic_publish("", "asl_workflow_reply_to-i1", payload, fakepika.BasicProperties(correlation_id="nobody", content_type="application/json"))
-    run = S.execute(scn, seed=ctx.seed, hooks=[hook])
+    run = S.execute(scn, seed=ctx.seed, hooks=[hook], max_steps=4000)      # (a poison may loop in zero time: bound the run, see below)
     try:
         w = run.world
         harn = w.sm_arn("h").replace("stateMachine", "execution") + ":healthy"
